@@ -28,8 +28,9 @@ def add_mandatory(cfg, ident=(0x11, 0x22, 0x33, 0x44), hb=0, sync_id=0x80, sync_
         cfg.add(var(0x1200 + s, 0, D | R, 1, 2))
         fl = (N | RW) if ssdo_rw else (N | R)
         dyn = 0x40000000 if (ssdo_dyn and s >= 1) else 0      # additional channel "assigned dynamically" (bit 30 of both COB-IDs): enabled like any other
-        cfg.add(var(0x1200 + s, 1, fl, 4, 0x600 + 0x10 * s + dyn, "sdoid"))
-        cfg.add(var(0x1200 + s, 2, fl, 4, 0x580 + 0x10 * s + dyn, "sdoid"))
+        ty = "sdoid" if (ssdo_rw or s >= 1) else None      # read-only parameters of the default server: plain UNSIGNED32 like the repository's quickstart dictionary
+        cfg.add(var(0x1200 + s, 1, fl, 4, 0x600 + 0x10 * s + dyn, ty))
+        cfg.add(var(0x1200 + s, 2, fl, 4, 0x580 + 0x10 * s + dyn, ty))
     return cfg
 
 
